@@ -10,7 +10,8 @@
    (3) frame_bytes is compared byte-for-byte with the wire on every run; what a *corrupted* frame parses to is not modelled
    beyond C15_xor_detects_single (the protocol level only needs: rejected). *)
 From Coq Require Import ZArith NArith Bool List.
-From GS Require Import model.Sender proofs.SenderProofs proofs.FrameProofs proofs.SenderLive proofs.SenderRacy.
+From GS Require Import model.Sender model.JobLines proofs.SenderProofs proofs.FrameProofs proofs.SenderLive proofs.SenderRacy
+  proofs.JobLinesProofs.
 Import ListNotations.
 Open Scope Z_scope.
 
@@ -74,6 +75,27 @@ Theorem C15_complete_clean : forall (C : Type) job boot ls s, 0 <= boot -> Foral
   run C job ls (init C boot true) = Some s -> quiescent C s -> accepted C (fw C s) = cmds_of C job.
 Proof. exact complete_clean. Qed.
 Print Assumptions C15_complete_clean.
+
+(* JOB LINES ("every non-comment line of the job").  model/JobLines.v: what _sendnext transmits for a job line -- nothing for
+   a host command (;@...), otherwise the line with the matches of gcoder.gcode_strip_comment_exp removed and surrounding
+   whitespace stripped, nothing if that is empty.  For every line without a line break: no ';' survives (every ;-comment is
+   removed to the end of the line); if the line has no parenthesis either, what is kept is exactly the text before the first
+   ';' ; and whatever is transmitted is non-empty and starts and ends with a non-blank character. *)
+Theorem C15_job_no_semicolon : forall l, ~ In NL l -> ~ In SEMI (strip_job_comments l).
+Proof. exact no_semicolon_left. Qed.
+Theorem C15_job_plain_line : forall l, ~ In NL l -> ~ In LP l -> strip_job_comments l = before_semi l.
+Proof. exact plain_line_before_semi. Qed.
+Theorem C15_job_command_trimmed : forall raw t, job_command raw = Some t ->
+  t <> [] /\ (match t with c :: _ => is_ws c = false | [] => True end) /\
+  (match rev t with c :: _ => is_ws c = false | [] => True end).
+Proof. exact job_command_trimmed. Qed.
+Print Assumptions C15_job_command_trimmed.
+
+(* "G1 X7 (inline note) Y3 ; c" -> "G1 X7  Y3";  "  ;@pause" and "(only a note)" -> nothing;  an unbalanced "(" stays *)
+Example C15_job_lines_nonvacuous :
+  job_commands [[71;49;32;88;55;32;40;110;41;32;89;51;32;59;32;99]; [32;32;59;64;112]; [40;110;111;116;101;41]; [71;52;32;40]]%N =
+    [[71;49;32;88;55;32;32;89;51]; [71;52;32;40]]%N.
+Proof. vm_compute. reflexivity. Qed.
 
 (* the XOR checksum detects the replacement of any single byte of the numbered prefix *)
 Theorem C15_xor_detects_single : forall pre b b' post, b <> b' -> checksum (pre ++ b :: post) <> checksum (pre ++ b' :: post).
